@@ -53,6 +53,8 @@ def privName (id : Nat) : String := String.ofList (privateName id)
 structure Ev where
   id : Nat
   vis : List Nat
+  /-- the name handed out (for the use check of `write`) -/
+  name : String
 
 mutual
 inductive FOp where
@@ -84,6 +86,10 @@ structure St where
   ok : Bool
   /-- the model's counters agreed with the traced ones at every allocation -/
   sync : Bool
+  /-- ghost: ids declared by nested top-scope writers that were written out earlier in the current function / block (visible from here on, never re-issued: `allocFree`) -/
+  subVis : List Nat
+  /-- every generated identifier that was written as a piece of text of its own was visible where it was written (`useCheck`) -/
+  uses : Bool
 
 /-- the block an operation works on: the function's own, else the top-scope writer's (`get_block`) -/
 def St.blk (s : St) : Blk := s.loc.getD s.top.blk
@@ -94,6 +100,17 @@ def St.setBlk (s : St) (b : Blk) : St :=
   | none => { s with top := { s.top with blk := b } }
 
 def St.put (s : St) (t : String) : St := { s with w := s.w ++ t }
+
+def identLike (t : String) : Bool :=
+  !t.isEmpty && t.toList.all fun c => c.isAlphanum || c == '_'
+
+/-- a piece of text that is exactly the name of an identifier handed out earlier must be written where that identifier is visible -/
+def St.useCheck (s : St) (t : String) : Bool :=
+  if identLike t then
+    match s.evs.find? (fun e => e.name == t) with
+    | some e => (s.topVis ++ s.locVis ++ s.subVis).contains e.id
+    | none => true
+  else true
 
 /-- monitor: a public identifier is about to be taken from the function's own block — the top-scope counter must not be ahead of it -/
 def St.c1 (s : St) : Bool :=
@@ -111,7 +128,7 @@ def St.c2 (s : St) : Bool :=
 def genPub (c : Nat) (s : St) : St × String :=
   let b := s.blk
   let r := allocId b.id
-  let ev : Ev := ⟨r.1, s.topVis ++ s.locVis⟩
+  let ev : Ev := ⟨r.1, s.topVis ++ s.locVis, pubName r.1⟩
   let s1 := s.setBlk { b with id := r.2 }
   let s2 : St := match s.loc with
     | some _ => { s1 with locVis := s.locVis ++ [r.1] }
@@ -121,7 +138,7 @@ def genPub (c : Nat) (s : St) : St × String :=
 /-- allocation of `declare_var_on_top_scope*` -/
 def declPub (c : Nat) (s : St) : St × String :=
   let r := allocId s.top.blk.id
-  let ev : Ev := ⟨r.1, s.topVis ++ s.locVis⟩
+  let ev : Ev := ⟨r.1, s.topVis ++ s.locVis, pubName r.1⟩
   ({ s with top := { s.top with blk := { s.top.blk with id := r.2 } }, topVis := s.topVis ++ [r.1],
             evs := s.evs ++ [ev], ok := s.ok && s.c2, sync := s.sync && (c == s.top.blk.id) }, pubName r.1)
 
@@ -170,15 +187,15 @@ def isSubTop : FOp → Bool
   | _ => false
 
 /-- leave a nested function / block: the text stays, the enclosing function's own block and visible set come back -/
-def St.leave (s1 s : St) : St := { s1 with loc := s.loc, locVis := s.locVis }
+def St.leave (s1 s : St) : St := { s1 with loc := s.loc, locVis := s.locVis, subVis := s.subVis }
 
 /-- `declare_on_top_init` around the initialiser (`s0`: before, `s1`: after running it on an empty buffer without own block) -/
 def St.closeInit (s1 s0 : St) (sep : Bool) : St :=
-  { s1 with w := s0.w, loc := s0.loc, locVis := s0.locVis,
+  { s1 with w := s0.w, loc := s0.loc, locVis := s0.locVis, subVis := s0.subVis,
             top := { s1.top with decls := s1.top.decls ++ [s1.w], blk := { s1.top.blk with sep := sep } } }
 
 def St.openInit (s : St) (name : String) : St :=
-  { s with w := name ++ "=", loc := none, locVis := [], top := { s.top with blk := { s.top.blk with sep := false } } }
+  { s with w := name ++ "=", loc := none, locVis := [], subVis := [], top := { s.top with blk := { s.top.blk with sep := false } } }
 
 mutual
 def runF : FOp → St → St
@@ -207,7 +224,8 @@ def runF : FOp → St → St
                                   ok := s.ok && s.c1, sync := s.sync && (c == e.id) && (p == e.priv) }
     let txt := ({ s1.top with subs := s1.top.subs ++ [s1.w] } : Top).finish
     -- back in the enclosing writer: `w.expr_stmt(|w| write!(w, "{}", finish))`
-    let back : St := { s with evs := s1.evs, ok := s1.ok, sync := s1.sync }
+    let back : St := { s with evs := s1.evs, ok := s1.ok, sync := s1.sync, uses := s1.uses,
+                              subVis := s.subVis ++ s1.topVis.drop (s.topVis ++ s.locVis).length }
     back.stat.put txt
 def runFs : List FOp → St → St
   | [], s => s
@@ -216,7 +234,7 @@ def runFs : List FOp → St → St
     let s2 : St := if isSubTop o then { s1 with ok := s1.ok && allocFreeFs r } else s1
     runFs r s2
 def runE : EOp → St → St
-  | .write t, s => s.put t
+  | .write t, s => { s.put t with uses := s.uses && s.useCheck t }
   | .fn args body, s =>
     let hdr := match args with | some a => "(" ++ a ++ ")=>{" | none => "()=>{"
     ((runFs body { s.put hdr with loc := some s.blk.extend }).leave s).put "}"
@@ -237,11 +255,11 @@ end
 /-- `JsTopScopeWriter::new` + `function_scope` once per element of `scopes` + `finish` -/
 def initSt : St :=
   { w := "", loc := none, top := { decls := [], subs := [], blk := { sep := false, id := GE.Extracted.varNameIndexPreserve, priv := 0 } },
-    topVis := [], locVis := [], evs := [], ok := true, sync := true }
+    topVis := [], locVis := [], evs := [], ok := true, sync := true, subVis := [], uses := true }
 
 def runScope (body : List FOp) (s : St) : St :=
   let sep := s.top.blk.sep
-  let s1 := runFs body { s with w := "", loc := none, locVis := [], top := { s.top with blk := { s.top.blk with sep := false } } }
+  let s1 := runFs body { s with w := "", loc := none, locVis := [], subVis := [], top := { s.top with blk := { s.top.blk with sep := false } } }
   { s1 with w := "", top := { s1.top with subs := s1.top.subs ++ [s1.w], blk := { s1.top.blk with sep := sep } } }
 
 def runRoot (scopes : List (List FOp)) : St :=
